@@ -839,6 +839,227 @@ theorem runCallback_ok (C : CtxC h main reg T rank) (f0 : Nat) (c0 : Nat) (rest 
       simp only [runCallback, hfp, b6, hv]
       exact e'
 
+/-- `_try_callbacks` once every registered name has been restored: all callbacks complete. -/
+theorem tryCallbacks_ok (C : CtxC h main reg T rank) (f0 : Nat) : ∀ (R : List Nat) (st : LState),
+    CbInv h reg (fun c _ => c ∈ R) st →
+    (tryCallbacks (object T (f0 + 1)) st R).memo = st.memo ∧
+      CbInv h reg (fun _ _ => False) (tryCallbacks (object T (f0 + 1)) st R)
+  | [], st, inv => ⟨rfl, inv.monoQ (fun c _ _ _ hq => by simp at hq)⟩
+  | c0 :: rest, st, inv => by
+    let ks := (st.pend.filter (fun e => e.1 == c0)).map (fun e => e.2.1)
+    have inv1 : CbInv h reg (fun c k => (c = c0 ∧ k ∈ ks) ∨ (c ≠ c0 ∧ c ∈ rest)) st :=
+      inv.monoQ (fun c k j hp hq => by
+        by_cases hc : c = c0
+        · left
+          refine ⟨hc, ?_⟩
+          simp only [ks, List.mem_map, List.mem_filter, beq_iff_eq]
+          exact ⟨(c, k, j), ⟨hp, hc⟩, rfl⟩
+        · right
+          rcases List.mem_cons.mp hq with e | e
+          · exact absurd e hc
+          · exact ⟨hc, e⟩)
+    obtain ⟨st1, e1, m1, i1⟩ := runCallback_ok C f0 c0 rest ks st inv1
+    have i1' : CbInv h reg (fun c _ => c ∈ rest) st1 := i1.monoQ (fun _ _ _ _ hq => hq.2)
+    let st2 : LState := { st1 with callbacks := st1.callbacks.erase c0 }
+    have i2 : CbInv h reg (fun c _ => c ∈ rest) st2 :=
+      ⟨i1'.keysNodup, i1'.valsNodup, i1'.allIn, i1'.pendOk, i1'.cells⟩
+    obtain ⟨m3, i3⟩ := tryCallbacks_ok C f0 rest st2 i2
+    have hstep : tryCallbacks (object T (f0 + 1)) st (c0 :: rest) = tryCallbacks (object T (f0 + 1)) st2 rest := by
+      simp only [tryCallbacks]
+      have e1' : runCallback (object T (f0 + 1)) c0 st
+          (List.map (fun e => e.2.1) (List.filter (fun e => e.1 == c0) st.pend)) = (st1, true) := e1
+      rw [e1']
+    rw [hstep]
+    exact ⟨by rw [m3]; exact m1, i3⟩
+
+/-- after the callbacks every cell is `Good` in the sense of the round-trip Spec -/
+theorem good_of_cbInv {st : LState} (inv : CbInv h reg (fun _ _ => False) st) :
+    ∀ e ∈ st.memo, Good h reg st e.1 e.2 := by
+  intro e he
+  obtain ⟨o, ob, lo, a1, a2, a3, a4, a5, a6⟩ := inv.cells e he
+  have hb : e.2 < st.heap.length := by
+    obtain ⟨hb, _⟩ := List.getElem?_eq_some_iff.mp a3; exact hb
+  refine ⟨hb, o, ob, lo, a1, a2, a3, a4, relVals_of_pointwise ob.fields lo.fields a5 ?_⟩
+  intro k f l hk hl
+  have := a6 k f l hk hl
+  unfold FieldOk at this
+  split at this
+  · rcases this with t | ⟨_, _, t⟩
+    · exact t
+    · exact absurd t id
+  · exact this
+
+/-- every object of the heap hangs below `main` through non-callback edges (`dist` decreases towards `main`) -/
+def Covered (h : Heap) (main : Nat) (dist : Nat → Nat) : Prop :=
+  ∀ o ob, h[o]? = some ob → o = main ∨
+    ∃ q obq f, h[q]? = some obq ∧ f ∈ obq.fields ∧ f.phase ≠ .cb ∧ f.val = .ref o ∧ dist q < dist o
+
+/-- after `main`'s loader, every object of a covered heap has been restored -/
+theorem all_loaded (C : CtxC h main reg T rank) (dist : Nat → Nat) (hcov : Covered h main dist)
+    {st : LState} (inv : LInvC h reg [] st) {i : Nat} (hmi : lookupMemo st.memo mainName = some i) :
+    ∀ (d : Nat) (o : Nat) (ob : Obj), dist o ≤ d → h[o]? = some ob →
+      ∃ n j, (o, n) ∈ reg ∧ lookupMemo st.memo n = some j
+  | d, o, ob, hd, hob => by
+    have hmain : (main, mainName) ∈ reg := lookupName_some_mem C.regOk.mainIn
+    rcases hcov o ob hob with hm | ⟨q, obq, f, hq, hf, hncb, hfv, hdq⟩
+    · subst hm; exact ⟨mainName, i, hmain, hmi⟩
+    · cases d with
+      | zero => omega
+      | succ d =>
+        obtain ⟨m, jq, hqm, hjq⟩ := all_loaded C dist hcov inv hmi d q obq (by omega) hq
+        obtain ⟨_, o', ob', lo, a1, a2, a3, a4, a5⟩ := inv.good (m, jq) (lookupMemo_some_mem hjq) (by simp)
+        have ho : o' = q := C.regOk.obj_unique a1 hqm
+        subst ho
+        rw [hq] at a2; cases a2
+        obtain ⟨hlen, hpt⟩ := cellVals_pointwise 0 obq.fields lo.fields a5
+        obtain ⟨k, hk⟩ := List.mem_iff_getElem?.mp hf
+        have hklt : k < lo.fields.length := by
+          rw [hlen]; obtain ⟨hlt, _⟩ := List.getElem?_eq_some_iff.mp hk; exact hlt
+        have hl : lo.fields[k]? = some lo.fields[k] := List.getElem?_eq_getElem hklt
+        have := hpt k f _ hk hl
+        simp only [hncb, if_false, hfv] at this
+        cases hlv : lo.fields[k] <;> rw [hlv] at this <;> simp only [RelVal] at this
+        obtain ⟨nm, h1, h2⟩ := this
+        exact ⟨nm, _, lookupName_some_mem h1, h2⟩
+
+/-- **Round trip with generator loaders and deferred callbacks.** -/
+theorem roundtrip_cb_core (rank dist : Nat → Nat) (hno : NoOwn h)
+    (hgc : ∀ ob ∈ h, (∃ f ∈ ob.fields, f.phase = .late) → ∀ f ∈ ob.fields, f.phase ≠ .cb)
+    (hrkE : ∀ o ob, h[o]? = some ob → ∀ f ∈ ob.fields, f.phase = .early → ∀ p, f.val = .ref p → rank p < rank o)
+    (hrkL : ∀ o ob, h[o]? = some ob → ∀ f ∈ ob.fields, f.phase = .late → ∀ p, f.val = .ref p → rank p ≤ rank o)
+    (hmainPlain : ∀ ob, h[main]? = some ob → ∀ f ∈ ob.fields, f.phase ≠ .late)
+    (hcov : Covered h main dist)
+    {st : SState} {T : Table} (hs : serialize h main = .ok (st, T)) (fuel : Nat) (hfuel : st.reg.length + 2 < fuel) :
+    ∃ ls i, unserialize T fuel = (ls, .ok (.ref i)) ∧ specRoundTrip h st.reg ls = true := by
+  obtain ⟨hk, hreach, hkeys, hent⟩ := serialize_spec h main hno hs
+  have hTnd : (T.map Prod.fst).Nodup := by rw [hkeys]; exact hk.namesNodup
+  have C : CtxC h main st.reg T rank := {
+    regOk := hk
+    tbl := fun o n hon => by
+      obtain ⟨ob, h1, h2, h3⟩ := hent o n hon
+      exact ⟨ob, h1, lookupRec_of_mem hTnd h2, h3⟩
+    noOwn := hno
+    noGenCb := hgc
+    rkEarly := hrkE
+    rkLate := hrkL }
+  have hmain : (main, mainName) ∈ st.reg := lookupName_some_mem hk.mainIn
+  obtain ⟨f', rfl⟩ : ∃ f', fuel = f' + 1 + 1 := ⟨fuel - 2, by omega⟩
+  have inv0 : LInvC h st.reg [] initL :=
+    ⟨by simp [initL], by simp [initL], by intro w hw; simp [initL] at hw,
+     by intro e he; simp [initL] at he, by intro e he; simp [initL] at he, by intro e he; simp [initL] at he⟩
+  have htodo : todo st.reg initL ≤ st.reg.length := by
+    unfold todo; exact List.length_filter_le _ _
+  obtain ⟨ob, hob, hrec, hrefs⟩ := C.tbl main mainName hmain
+  have hlit : isLiteralStr mainName = false := mainName_not_literal
+  obtain ⟨st4, i, hload, inv4, ext4, mem4⟩ :=
+    loadRec_named_ok C f' [] main mainName hmain ob hob hrefs initL inv0 rfl (by simp [initL])
+      (by intro w hw; simp [initL] at hw) (by omega)
+      (by rintro ⟨g, hg, hgl⟩; exact absurd hgl (hmainPlain ob hob g hg))
+      (fun prog' => load_named_cb C (f' + 1) prog')
+  have hwork4 : st4.working = [] := ext4.work
+  -- everything has been restored: the callbacks only hit the memo table
+  have hallIn : ∀ o n, (o, n) ∈ st.reg → ∃ j, lookupMemo st4.memo n = some j := by
+    intro o n hon
+    obtain ⟨ob', hob', _, _⟩ := C.tbl o n hon
+    obtain ⟨n', j, hn', hj⟩ := all_loaded C dist hcov inv4 mem4 (dist o) o ob' (Nat.le_refl _) hob'
+    rw [hk.name_unique hon hn']; exact ⟨j, hj⟩
+  have cb0 : CbInv h st.reg (fun c _ => c ∈ st4.callbacks) st4 := by
+    refine ⟨inv4.keysNodup, inv4.valsNodup, hallIn, inv4.pendOk, ?_⟩
+    intro e he
+    obtain ⟨_, o', ob', lo, a1, a2, a3, a4, a5⟩ := inv4.good e he (by simp)
+    obtain ⟨hlen, hpt⟩ := cellVals_pointwise 0 ob'.fields lo.fields a5
+    refine ⟨o', ob', lo, a1, a2, a3, a4, hlen, ?_⟩
+    intro k f l hk hl
+    have := hpt k f l hk hl
+    unfold FieldOk
+    split
+    · rename_i hcb
+      simp only [hcb, if_true, Nat.zero_add] at this
+      exact Or.inr this
+    · rename_i hcb
+      simp only [hcb, if_false] at this; exact this
+  obtain ⟨m5, cb5⟩ := tryCallbacks_ok C f' st4.callbacks st4 cb0
+  refine ⟨tryCallbacks (object T (f' + 1)) st4 st4.callbacks, i, ?_,
+    spec_of_loaded hk hreach _ (good_of_cbInv cb5) cb5.valsNodup (by rw [m5]; exact mem4)⟩
+  unfold unserialize
+  have hcont : initL.working.contains mainName = false := by simp [initL]
+  rw [object_named_unfold T (f' + 1) initL mainName ob.cls (encFields st.reg ob.fields) hlit rfl hrec hcont, hload]
+  have herase : st4.working.erase mainName = st4.working := by rw [hwork4]; rfl
+  have hst : ({ st4 with working := st4.working.erase mainName } : LState) = st4 := by rw [herase]
+  simp only [hst]
+  unfold tryCallbacksIfIdle
+  simp only [hwork4, List.isEmpty_nil, if_true]
+
 end
+
+/-! ### Boolean hypotheses as propositions -/
+
+theorem noGenCb_iff (h : Heap) (hb : noGenCb h = true) :
+    ∀ ob ∈ h, (∃ f ∈ ob.fields, f.phase = .late) → ∀ f ∈ ob.fields, f.phase ≠ .cb := by
+  intro ob hob ⟨g, hg, hgl⟩ f hf hfc
+  unfold noGenCb at hb
+  have := (List.all_eq_true.mp hb) ob hob
+  have h1 : ob.fields.any (fun f => f.phase == .late) = true :=
+    List.any_eq_true.mpr ⟨g, hg, by simp [hgl]⟩
+  have h2 : ob.fields.any (fun f => f.phase == .cb) = true :=
+    List.any_eq_true.mpr ⟨f, hf, by simp [hfc]⟩
+  simp [h1, h2] at this
+
+theorem mainPlain_iff (h : Heap) (main : Nat) (hb : mainPlain h main = true) :
+    ∀ ob, h[main]? = some ob → ∀ f ∈ ob.fields, f.phase ≠ .late := by
+  intro ob hob f hf hfl
+  unfold mainPlain at hb
+  simp only [hob] at hb
+  have := (List.all_eq_true.mp hb) f hf
+  simp [hfl] at this
+
+theorem cyclesBy_iff (rank : Nat → Nat) (h : Heap) (hb : cyclesBy rank h = true) :
+    (∀ o ob, h[o]? = some ob → ∀ f ∈ ob.fields, f.phase = .early → ∀ p, f.val = .ref p → rank p < rank o) ∧
+    (∀ o ob, h[o]? = some ob → ∀ f ∈ ob.fields, f.phase = .late → ∀ p, f.val = .ref p → rank p ≤ rank o) := by
+  have key : ∀ (o : Nat) (ob : Obj), h[o]? = some ob → ∀ (f : Field), f ∈ ob.fields → ∀ (p : Nat), f.val = Val.ref p →
+      (match f.phase with
+        | Phase.early => decide (rank p < rank o)
+        | Phase.late => decide (rank p ≤ rank o)
+        | _ => true) = true := by
+    intro o ob hob f hf p hp
+    unfold cyclesBy at hb
+    have ho : o < h.length := by
+      obtain ⟨ho, _⟩ := List.getElem?_eq_some_iff.mp hob; exact ho
+    have := (List.all_eq_true.mp hb) o (List.mem_range.mpr ho)
+    simp only [hob] at this
+    have := (List.all_eq_true.mp this) f hf
+    simp only [hp, Val.target] at this
+    cases hph : f.phase <;> simp only [hph] at this ⊢ <;> first | exact this | rfl
+  constructor
+  · intro o ob hob f hf hph p hp
+    have := key o ob hob f hf p hp
+    simp only [hph, decide_eq_true_eq] at this
+    exact this
+  · intro o ob hob f hf hph p hp
+    have := key o ob hob f hf p hp
+    simp only [hph, decide_eq_true_eq] at this
+    exact this
+
+theorem coveredBy_iff (dist : Nat → Nat) (h : Heap) (main : Nat) (hb : coveredBy dist h main = true) :
+    Covered h main dist := by
+  intro o ob hob
+  unfold coveredBy at hb
+  have ho : o < h.length := by
+    obtain ⟨ho, _⟩ := List.getElem?_eq_some_iff.mp hob; exact ho
+  have := (List.all_eq_true.mp hb) o (List.mem_range.mpr ho)
+  rw [Bool.or_eq_true] at this
+  rcases this with hm | hex
+  · left; simpa using hm
+  · right
+    obtain ⟨q, _, hq⟩ := List.any_eq_true.mp hex
+    cases hobq : h[q]? with
+    | none => simp [hobq] at hq
+    | some obq =>
+      simp only [hobq, Bool.and_eq_true, decide_eq_true_eq] at hq
+      obtain ⟨f, hf, hfp⟩ := List.any_eq_true.mp hq.2
+      rw [Bool.and_eq_true] at hfp
+      refine ⟨q, obq, f, hobq, hf, ?_, ?_, hq.1⟩
+      · intro hc; simp [hc] at hfp
+      · simpa using hfp.2
 
 end GlueVerif.C02
